@@ -182,6 +182,352 @@ func c15Users(s *source, rel string, ctor string) []string {
 	return out
 }
 
+
+// c15ReprSwitch reads the type switch of lang.reprOfValue: per case clause the Go type(s), and the returned
+// expression decomposed into the function called and the source of every argument, e.g.
+//   case uint8: return strconv.FormatUint(uint64(vt), 10)   ->   ("uint8", "strconv.FormatUint", ["uint64(vt)", "10"])
+// The Lean side (GoZero/C15/ReprTie.lean) INTERPRETS this table (conversion, formatting function, base, bit size)
+// on every Go value and proves the result equal to the model's `reprOf`. Emits also the switch header.
+func (e *emitter) c15ReprSwitch(s *source, rel, goName, leanName string) {
+	fd := s.findFunc(rel, goName)
+	var ts *ast.TypeSwitchStmt
+	if fd != nil {
+		for _, st := range fd.Body.List {
+			if x, ok := st.(*ast.TypeSwitchStmt); ok {
+				ts = x
+				break
+			}
+		}
+	}
+	if ts == nil {
+		e.errors = append(e.errors, "type switch of "+goName+" not found in "+rel)
+		e.printf("def %s : List (String × String × List String) := []\ndef %sHeader : String := \"MISSING\"\n\n", leanName, leanName)
+		return
+	}
+	e.printf("/-- header of the type switch of `%s` in %s -/\ndef %sHeader : String := %s\n\n", goName, rel, leanName, leanString(s.src(ts.Assign)))
+	e.printf("/-- cases of the type switch of `%s` in %s, in source order: (types, function, arguments) -/\ndef %s : List (String × String × List String) := [", goName, rel, leanName)
+	for i, c := range ts.Body.List {
+		cc := c.(*ast.CaseClause)
+		var types []string
+		for _, t := range cc.List {
+			types = append(types, s.src(t))
+		}
+		ty := strings.Join(types, ",")
+		if cc.List == nil {
+			ty = "default"
+		}
+		fn, args := "?", []string{}
+		if len(cc.Body) == 1 {
+			if r, ok := cc.Body[0].(*ast.ReturnStmt); ok && len(r.Results) == 1 {
+				if call, ok := r.Results[0].(*ast.CallExpr); ok {
+					fn = s.src(call.Fun)
+					for _, a := range call.Args {
+						args = append(args, s.src(a))
+					}
+				} else {
+					fn = s.src(r.Results[0])
+				}
+			}
+		}
+		if len(cc.Body) != 1 || fn == "?" {
+			fn = "?"
+			for _, st := range cc.Body {
+				args = append(args, s.src(st))
+			}
+		}
+		if i > 0 {
+			e.printf(",")
+		}
+		e.printf("\n  (%s, %s, [", leanString(ty), leanString(fn))
+		for j, a := range args {
+			if j > 0 {
+				e.printf(", ")
+			}
+			e.printf("%s", leanString(a))
+		}
+		e.printf("])")
+	}
+	e.printf("]\n\n")
+}
+
+// c15ReprFlow: the statements of lang.Repr in order, with conditions: nil test, the Stringer type switch, the
+// pointer-dereference loop, the final call.
+func c15ReprFlow(s *source, fd *ast.FuncDecl) []string {
+	if fd == nil {
+		return []string{"MISSING"}
+	}
+	var out []string
+	for _, st := range fd.Body.List {
+		switch x := st.(type) {
+		case *ast.IfStmt:
+			out = append(out, "if "+s.src(x.Cond))
+			for _, b := range x.Body.List {
+				out = append(out, "  "+s.src(b))
+			}
+		case *ast.TypeSwitchStmt:
+			out = append(out, "switch "+s.src(x.Assign))
+			for _, c := range x.Body.List {
+				cc := c.(*ast.CaseClause)
+				var types []string
+				for _, t := range cc.List {
+					types = append(types, s.src(t))
+				}
+				if cc.List == nil {
+					types = []string{"default"}
+				}
+				out = append(out, "  case "+strings.Join(types, ","))
+				for _, b := range cc.Body {
+					out = append(out, "    "+s.src(b))
+				}
+			}
+		case *ast.ForStmt:
+			h := "for "
+			if x.Init != nil || x.Post != nil {
+				h += "<init/post> "
+			}
+			if x.Cond != nil {
+				h += s.src(x.Cond)
+			}
+			out = append(out, h)
+			for _, b := range x.Body.List {
+				out = append(out, "  "+s.src(b))
+			}
+		default:
+			out = append(out, s.src(st))
+		}
+	}
+	return out
+}
+
+// ---- decision conditions, lifted into Lean functions (round 4) -------------------------------------------------
+//
+// c15Subst returns a copy of e in which every sub-expression whose normalised source is a key of m is replaced by
+// the identifier m[src] (so `h.keys[i] >= hash` becomes `k >= x`, an integer condition the shared translator
+// understands). Anything the copy does not understand is returned as it is (and the translator fails loudly).
+func c15Subst(s *source, e ast.Expr, m map[string]string) ast.Expr {
+	if n, ok := m[s.src(e)]; ok {
+		return c15Ident(n)
+	}
+	switch x := e.(type) {
+	case *ast.BinaryExpr:
+		return &ast.BinaryExpr{X: c15Subst(s, x.X, m), Op: x.Op, Y: c15Subst(s, x.Y, m)}
+	case *ast.ParenExpr:
+		return &ast.ParenExpr{X: c15Subst(s, x.X, m)}
+	case *ast.UnaryExpr:
+		return &ast.UnaryExpr{Op: x.Op, X: c15Subst(s, x.X, m)}
+	}
+	return e
+}
+
+// c15FindExpr returns the first expression inside fd (function literals included) for which pick says yes.
+func c15FindExpr(fd *ast.FuncDecl, pick func(ast.Expr) bool) ast.Expr {
+	var found ast.Expr
+	if fd == nil {
+		return nil
+	}
+	ast.Inspect(fd.Body, func(n ast.Node) bool {
+		if found != nil {
+			return false
+		}
+		if e, ok := n.(ast.Expr); ok && pick(e) {
+			found = e
+			return false
+		}
+		return true
+	})
+	return found
+}
+
+// c15Lift emits `def <leanName> (params…) : Int`: for a boolean expression 1 / 0 (`if cond { return 1 }; return 0`),
+// for an integer expression the expression itself.
+func (e *emitter) c15Lift(t *translator, s *source, what string, expr ast.Expr, isBool bool, leanName string, params []string, m map[string]string) {
+	if expr == nil {
+		e.errors = append(e.errors, "expression for "+leanName+" ("+what+") not found")
+		e.printf("/-- MISSING: %s -/\ndef %s : Unit := ()\n\n", what, leanName)
+		return
+	}
+	sub := c15Subst(s, expr, m)
+	var syn *ast.FuncDecl
+	if isBool {
+		syn = c15Synth(leanName, params, []ast.Stmt{&ast.IfStmt{Cond: sub, Body: &ast.BlockStmt{List: []ast.Stmt{
+			&ast.ReturnStmt{Results: []ast.Expr{&ast.BasicLit{Kind: token.INT, Value: "1"}}}}}}},
+			&ast.BasicLit{Kind: token.INT, Value: "0"})
+	} else {
+		syn = c15Synth(leanName, params, nil, sub)
+	}
+	def, err := t.translateFunc(syn, leanName, leanName, false, 0, nil)
+	if err != nil {
+		e.errors = append(e.errors, leanName+": "+err.Error())
+	}
+	e.printf("/-- lifted from `%s` (%s) -/\n%s\n", s.src(expr), what, def)
+}
+
+// searchPred: the body `return <pred>` of the func literal handed to the n-th sort.Search of fd
+func c15SearchPred(s *source, fd *ast.FuncDecl, nth int) ast.Expr {
+	var found ast.Expr
+	if fd == nil {
+		return nil
+	}
+	k := 0
+	ast.Inspect(fd.Body, func(n ast.Node) bool {
+		c, ok := n.(*ast.CallExpr)
+		if !ok || found != nil {
+			return found == nil
+		}
+		fn := s.src(c.Fun)
+		if (fn == "sort.Search" || fn == "sort.Slice") && len(c.Args) == 2 {
+			if fl, ok := c.Args[1].(*ast.FuncLit); ok && len(fl.Body.List) == 1 {
+				if r, ok := fl.Body.List[0].(*ast.ReturnStmt); ok && len(r.Results) == 1 {
+					if k == nth {
+						found = r.Results[0]
+					}
+					k++
+				}
+			}
+		}
+		return true
+	})
+	return found
+}
+
+func c15IfCond(s *source, fd *ast.FuncDecl, prefix string) ast.Expr {
+	var found ast.Expr
+	if fd == nil {
+		return nil
+	}
+	ast.Inspect(fd.Body, func(n ast.Node) bool {
+		if x, ok := n.(*ast.IfStmt); ok && found == nil && strings.HasPrefix(s.src(x.Cond), prefix) {
+			found = x.Cond
+		}
+		return found == nil
+	})
+	return found
+}
+
+func c15ForCond(fd *ast.FuncDecl) ast.Expr {
+	var found ast.Expr
+	if fd == nil {
+		return nil
+	}
+	ast.Inspect(fd.Body, func(n ast.Node) bool {
+		if x, ok := n.(*ast.ForStmt); ok && found == nil {
+			found = x.Cond
+		}
+		return found == nil
+	})
+	return found
+}
+
+func c15Rem(fd *ast.FuncDecl, nth int) ast.Expr {
+	k := 0
+	return c15FindExpr(fd, func(e ast.Expr) bool {
+		if b, ok := e.(*ast.BinaryExpr); ok && b.Op == token.REM {
+			k++
+			return k-1 == nth
+		}
+		return false
+	})
+}
+
+func (e *emitter) c15Conditions(t *translator, s *source) {
+	const f = "core/hash/consistenthash.go"
+	get := s.findFunc(f, "ConsistentHash.Get")
+	rem := s.findFunc(f, "ConsistentHash.Remove")
+	if fd := s.findFunc(f, "ConsistentHash.removeLocked"); fd != nil {
+		rem = fd // fixes/C15-add-single-critical-section.patch
+	}
+	add := s.findFunc(f, "ConsistentHash.AddWithReplicas")
+	rrn := s.findFunc(f, "ConsistentHash.removeRingNode")
+	irn := s.findFunc(f, "insertRingNode")
+	// Get
+	e.c15Lift(t, s, "Get: empty ring", c15IfCond(s, get, "len(h.ring)"), true, "condGetEmpty", []string{"nr"}, map[string]string{"len(h.ring)": "nr"})
+	e.c15Lift(t, s, "Get: search predicate", c15SearchPred(s, get, 0), true, "condGetSearch", []string{"k", "x"}, map[string]string{"h.keys[i]": "k", "hash": "x"})
+	wrap := c15Rem(get, 0)
+	wm := map[string]string{"len(h.keys)": "n"}
+	if b, ok := wrap.(*ast.BinaryExpr); ok {
+		wm[s.src(b.X)] = "idx"
+	}
+	e.c15Lift(t, s, "Get: wrap-around of the search result", wrap, false, "exprGetWrap", []string{"idx", "n"}, wm)
+	e.c15Lift(t, s, "Get: position inside a collision bucket", c15Rem(get, 1), false, "exprGetInner", []string{"hv", "n"},
+		map[string]string{"innerIndex": "hv", "uint64(len(nodes))": "n"})
+	// Get: `switch len(nodes) { case 0: … case 1: … default: … }` — the tag and the case constants
+	{
+		tag, cases, hasDefault := "MISSING", []string{}, false
+		if get != nil {
+			ast.Inspect(get.Body, func(n ast.Node) bool {
+				if sw, ok := n.(*ast.SwitchStmt); ok && tag == "MISSING" {
+					tag = s.src(sw.Tag)
+					for _, c := range sw.Body.List {
+						cc := c.(*ast.CaseClause)
+						if cc.List == nil {
+							hasDefault = true
+						}
+						for _, v := range cc.List {
+							if cv, ok := s.eval(f, v); ok {
+								cases = append(cases, cv.ExactString())
+							} else {
+								cases = append(cases, "-999999999")
+							}
+						}
+					}
+				}
+				return true
+			})
+		}
+		e.printf("/-- tag of the switch in `Get` -/\ndef getSwitchTag : String := %s\n\n", leanString(tag))
+		e.printf("/-- case constants of the switch in `Get`, in order; default clause present: %v -/\ndef getSwitchCases : List Int := [%s]\ndef getSwitchHasDefault : Bool := %v\n\n", hasDefault, strings.Join(cases, ", "), hasDefault)
+	}
+	// Remove
+	e.c15Lift(t, s, "Remove: loop bound", c15ForCond(rem), true, "condRemoveLoop", []string{"i", "r"}, map[string]string{"h.replicas": "r"})
+	e.c15Lift(t, s, "Remove: search predicate", c15SearchPred(s, rem, 0), true, "condRemoveSearch", []string{"k", "x"}, map[string]string{"h.keys[i]": "k", "hash": "x"})
+	e.c15Lift(t, s, "Remove: is the found key the hash", c15IfCond(s, rem, "index <"), true, "condRemoveFound", []string{"index", "n", "k", "x"},
+		map[string]string{"len(h.keys)": "n", "h.keys[index]": "k", "hash": "x"})
+	// removeRingNode
+	e.c15Lift(t, s, "removeRingNode: entry of another node", c15IfCond(s, rrn, "repr(x)"), true, "condRingNodeOther", []string{"a", "b"},
+		map[string]string{"repr(x)": "a", "nodeRepr": "b"})
+	e.c15Lift(t, s, "removeRingNode: bucket keeps other nodes", c15IfCond(s, rrn, "len(nodes)"), true, "condRingNodeKeep", []string{"n"}, map[string]string{"len(nodes)": "n"})
+	// AddWithReplicas / insertRingNode
+	e.c15Lift(t, s, "AddWithReplicas: loop bound", c15ForCond(add), true, "condAddLoop", []string{"i", "replicas"}, map[string]string{})
+	e.c15Lift(t, s, "AddWithReplicas: key order", c15SearchPred(s, add, 0), true, "condKeyLess", []string{"a", "b"}, map[string]string{"h.keys[i]": "a", "h.keys[j]": "b"})
+	e.c15Lift(t, s, "insertRingNode: first entry with a greater repr", c15SearchPred(s, irn, 0), true, "condInsertBefore", []string{"a", "b"},
+		map[string]string{"repr(nodes[i])": "a", "nodeRepr": "b"})
+	// users
+	cnew := s.findFunc("core/stores/cache/cache.go", "New")
+	e.c15Lift(t, s, "cache.New: no usable node", c15IfCond(s, cnew, "len(c) == 0"), true, "condCacheNoNode", []string{"n", "tw"}, map[string]string{"len(c)": "n", "TotalWeights(c)": "tw"})
+	e.c15Lift(t, s, "cache.New: single node, no ring", c15IfCond(s, cnew, "len(c) == 1"), true, "condCacheSingle", []string{"n"}, map[string]string{"len(c)": "n"})
+	knew := s.findFunc("core/stores/kv/store.go", "NewStore")
+	e.c15Lift(t, s, "kv.NewStore: no usable node", c15IfCond(s, knew, "len(c) == 0"), true, "condKvNoNode", []string{"n", "tw"}, map[string]string{"len(c)": "n", "cache.TotalWeights(c)": "tw"})
+	tw := s.findFunc("core/stores/cache/util.go", "TotalWeights")
+	e.c15Lift(t, s, "TotalWeights: negative weight counts as zero", c15IfCond(s, tw, "node.Weight"), true, "condNegWeight", []string{"w"}, map[string]string{"node.Weight": "w"})
+}
+
+// c15DispatchArgs: for every method of recvType in rel, the argument of each call of `callee`
+// (`cs.getRedis(key)`): the argument list as written.
+func c15DispatchArgs(s *source, rel, callee string) []string {
+	f := s.file(rel)
+	if f == nil {
+		return []string{"MISSING " + rel}
+	}
+	var out []string
+	for _, d := range f.Decls {
+		fd, ok := d.(*ast.FuncDecl)
+		if !ok || fd.Body == nil {
+			continue
+		}
+		ast.Inspect(fd.Body, func(n ast.Node) bool {
+			if c, ok := n.(*ast.CallExpr); ok && s.src(c.Fun) == callee {
+				var args []string
+				for _, a := range c.Args {
+					args = append(args, s.src(a))
+				}
+				out = append(out, strings.Join(args, ","))
+			}
+			return true
+		})
+	}
+	return out
+}
+
 func init() {
 	register("C15", func(s *source, e *emitter) {
 		const f = "core/hash/consistenthash.go"
@@ -221,11 +567,41 @@ func init() {
 		// the users of the ring
 		e.stringList("cacheUsers", "ring construction and dispatch in core/stores/cache/cache.go", c15Users(s, "core/stores/cache/cache.go", "New"))
 		e.stringList("kvUsers", "ring construction and dispatch in core/stores/kv/store.go", c15Users(s, "core/stores/kv/store.go", "NewStore"))
+		e.stringList("kvDispatchArgs", "argument of every cs.getRedis call in core/stores/kv/store.go, per method", c15DispatchArgs(s, "core/stores/kv/store.go", "cs.getRedis"))
+		e.stringList("kvGetRedisBody", "getRedis", func() []string {
+			fd := s.findFunc("core/stores/kv/store.go", "clusterStore.getRedis")
+			var b []string
+			if fd != nil {
+				for _, st := range fd.Body.List {
+					b = append(b, s.src(st))
+				}
+			}
+			return b
+		}())
 		e.shapeDef(s, "core/stores/cache/cachenode.go", "cacheNode.String", "cacheNodeStringShape")
 		e.stringList("cacheNodeStringExprs", "repr of a cache node", c15Exprs(s, s.findFunc("core/stores/cache/cachenode.go", "cacheNode.String")))
 		e.stringList("redisStringExprs", "repr of a redis node", c15Exprs(s, s.findFunc("core/stores/redis/redis.go", "Redis.String")))
 		e.stringList("totalWeightsExprs", "TotalWeights", c15Exprs(s, s.findFunc("core/stores/cache/util.go", "TotalWeights")))
 		e.shapeDef(s, "core/stores/cache/util.go", "TotalWeights", "totalWeightsShape")
+		// decision conditions on the property's path, as Lean functions
+		e.c15Conditions(t, s)
+		// the three helpers of the `nodes` set
+		for _, fn := range [][2]string{{"ConsistentHash.addNode", "addNode"}, {"ConsistentHash.containsNode", "containsNode"}, {"ConsistentHash.removeNode", "removeNode"}} {
+			fd := s.findFunc(f, fn[0])
+			var body []string
+			if fd == nil {
+				e.errors = append(e.errors, "function "+fn[0]+" not found in "+f)
+			} else {
+				for _, st := range fd.Body.List {
+					body = append(body, s.src(st))
+				}
+			}
+			e.stringList(fn[1]+"Body", "statements of `"+fn[0]+"`", body)
+		}
+		// lang.Repr: the identity of nodes and keys
+		const lf = "core/lang/lang.go"
+		e.stringList("langReprFlow", "statements of `lang.Repr` in order", c15ReprFlow(s, s.findFunc(lf, "Repr")))
+		e.c15ReprSwitch(s, lf, "reprOfValue", "reprSwitch")
 		// the default hash
 		e.stringList("hashExprs", "what `Hash` computes", c15Exprs(s, s.findFunc("core/hash/hash.go", "Hash")))
 	})
